@@ -73,6 +73,7 @@ type Env struct {
 	MA      map[string]interface{}
 	O, P    *Obj
 	X, Y    interface{}
+	OV      Obj  // a struct held by value (no value domain)
 	PI      *int // pointer members (no value domain: set by the families that use them)
 	PS      *string
 	H       int     // boundary values of int
